@@ -89,13 +89,17 @@ func (u *Universe) plans(st *SpecTables) map[string]*PropPlan {
 	// the decoders tie "vector" to "fields" for the score properties (their statements quantify over vectors)
 	vecV3 := cat([]Unit{{Func: "v3m.NewBase"}, {Func: "v3m.NewTemporal"}, {Func: "v3m.NewEnvironmental"}, {Func: "v3m.GetVersion"}, {Func: "v3m.get"}}, objFuncs0("v3m", "decodeOne", "GetError", "Decode", "BaseMetrics", "TemporalMetrics"))
 	vecV2 := cat([]Unit{{Func: "v2m.NewBase"}, {Func: "v2m.NewTemporal"}, {Func: "v2m.NewEnvironmental"}}, objFuncs0("v2m", "decodeOne", "GetError", "IsEmpty", "Encode", "Decode", "BaseMetrics", "TemporalMetrics"))
+	// every query of the version: their 'modifies nothing' keeps a decoded object's scores what they are whatever else is
+	// asked of it first (a query that writes into the object it is applied to, or into its embedded objects, fails here)
+	qryV3 := objFuncs0("v3m", "GetError", "Encode", "String", "Score", "Severity", "BaseMetrics", "TemporalMetrics")
+	qryV2 := objFuncs0("v2m", "GetError", "Encode", "String", "Score", "Severity", "BaseMetrics", "TemporalMetrics", "IsEmpty")
 	P["C01"] = &PropPlan{ID: "C01", Title: "v3 base score = FIRST base equations",
 		Units: cat(v3("AV", "AC", "PR", "UI", "S", "C", "I", "A"), []Unit{
 			{Func: "v3m.Base.GetError"},
 			{Func: "v3m.Base.Score", Families: []string{"base"}},
-		}, v3(), vecV3),
+		}, v3(), vecV3, qryV3),
 		Assumptions: []string{"A1", "A2", "A5", "A9", "A10"},
-		Meta:        []string{"Decoder independence: Score is a function of the exported fields only (frame 'modifies nothing' + functional postcondition), so the score of a decoded object is the score of its fields whichever decoder produced them (fields per C09)."},
+		Meta:        []string{"History independence: every query of the version carries 'modifies nothing' (frames of GetError, Encode, String, Score, Severity and the accessors at all three levels are part of the plan), so the base score obtained through any object is not changed by what was asked of it before. Decoder independence: Score is a function of the exported fields only (frame 'modifies nothing' + functional postcondition), so the score of a decoded object is the score of its fields whichever decoder produced them (fields per C09)."},
 	}
 	P["C02"] = &PropPlan{ID: "C02", Title: "v3 temporal score = Roundup(Base x E x RL x RC) on the rounded base score",
 		Units: cat(v3("E", "RL", "RC"), []Unit{
@@ -104,7 +108,7 @@ func (u *Universe) plans(st *SpecTables) map[string]*PropPlan {
 			{Func: "v3m.Temporal.GetError"},
 			{Func: "v3m.Temporal.Score", Families: []string{"temporal"}},
 			{Lemma: "v3_temporal_compose"},
-		}, v3(), vecV3),
+		}, v3(), vecV3, qryV3),
 		Assumptions: []string{"A1", "A2", "A5", "A9", "A10"},
 		Meta:        []string{"Composition: Base.Score() === tenth(kb) with kb = v3_base_k(fields) (C01 family 'base'); Temporal.Score() === tenth(v3_outer_k(kb, E, RL, RC)) for every kb in 0..100 (family 'temporal'); v3_temporal_k = v3_outer_k o v3_base_k by definition (lemma v3_temporal_compose)."},
 	}
@@ -113,7 +117,7 @@ func (u *Universe) plans(st *SpecTables) map[string]*PropPlan {
 			{Func: "v3m.Base.GetError"}, {Func: "v3m.Temporal.GetError"}, {Func: "v3m.Environmental.GetError"},
 			{Func: "v3m.Environmental.Score", Families: []string{"inner", "outer"}},
 			{Lemma: "v3_env_compose"},
-		}, v3(), vecV3),
+		}, v3(), vecV3, qryV3),
 		Assumptions: []string{"A1", "A2", "A5", "A9", "A10"},
 		Meta:        []string{"Composition: family 'inner' shows that, for every combination of version, effective metrics and requirements, a non-positive modified impact returns 0 and otherwise the inner Roundup equals tenth(v3_env_inner_k) (and lies in 0..100); family 'outer' shows the outer Roundup(inner x E x RL x RC) for every inner value 0..100; v3_env_k is their composition by definition (lemma v3_env_compose). 'Not Defined takes the base value' is carried by the Modified*.Value contracts (effective metric eff_v3_*)."},
 	}
@@ -123,7 +127,7 @@ func (u *Universe) plans(st *SpecTables) map[string]*PropPlan {
 			{Func: "v2m.Base.Score", Families: []string{"base"}},
 			{Func: "v2m.Temporal.IsEmpty"}, {Func: "v2m.Temporal.GetError"},
 			{Func: "v2m.Temporal.Score", Families: []string{"temporal", "empty"}},
-		}, v2(), vecV2),
+		}, v2(), vecV2, qryV2),
 		Assumptions: []string{"A1", "A2", "A3", "A4", "A9", "A10"},
 		Meta:        []string{"Composition: Base.Score() is fp-equal to tenth(kb), kb a nearest tenth of the exact base equation (family 'base'); Temporal.Score() is a nearest tenth of (kb/10) x E x RL x RC for every kb in 0..100 incl. -0.0 (family 'temporal'), and equals the base score when the temporal group is absent (family 'empty')."},
 	}
@@ -133,7 +137,7 @@ func (u *Universe) plans(st *SpecTables) map[string]*PropPlan {
 			{Func: "v2m.Temporal.IsEmpty"}, {Func: "v2m.Temporal.GetError"},
 			{Func: "v2m.Environmental.IsEmpty"}, {Func: "v2m.Environmental.GetError"},
 			{Func: "v2m.Environmental.Score", Families: []string{"adjbase", "adjgrid", "adjtemp", "final", "final0", "none", "none0"}},
-		}, v2(), vecV2),
+		}, v2(), vecV2, qryV2),
 		Assumptions: []string{"A1", "A2", "A3", "A4", "A9", "A10"},
 		Meta:        []string{"Stages: 'adjbase' (adjusted base score is a nearest tenth of the base equation on AdjustedImpact, 46,656 instances), 'adjtemp' (temporal equation on every adjusted base score -2.0..10.0), 'final'/'final0' (CDP/TD equation on every adjusted temporal score), 'none'/'none0' (environmental group absent: temporal score). Exact halves may round either way at every rounding step (near1)."},
 	}
@@ -150,7 +154,7 @@ func (u *Universe) plans(st *SpecTables) map[string]*PropPlan {
 		{Func: "v2m.Environmental.Score", Families: []string{"adjgrid", "adjtemp", "final", "final0", "none", "none0"}},
 	}
 	P["C06"] = &PropPlan{ID: "C06", Title: "scores lie on the tenth grid in range; severity is the band of the same level's score",
-		Units: cat(v3(), v2(), vecV3, vecV2, scoreUnitsV3, scoreUnitsV2, []Unit{
+		Units: cat(v3(), v2(), vecV3, vecV2, qryV3, qryV2, scoreUnitsV3, scoreUnitsV2, []Unit{
 			{Func: "v3m.roundUp"}, // symbolic contract over all doubles in [0,10]: thorough tier only (minutes on cvc5)
 			{Func: "v3m.severity"}, {Func: "v3m.Severity.String"},
 			{Func: "v3m.Base.Severity", Families: []string{"sev"}}, {Func: "v3m.Temporal.Severity", Families: []string{"sev"}}, {Func: "v3m.Environmental.Severity", Families: []string{"sev"}},
@@ -163,7 +167,7 @@ func (u *Universe) plans(st *SpecTables) map[string]*PropPlan {
 		Meta:        []string{"The statement quantifies over vectors: the decoders of both versions are part of the plan (fields per C09, frames of Decode), so a decoder that lets stale state into a reused receiver fails here too. Grid and range: every Score() postcondition of the score families has the form result === tenth(k) (v3) or result fp-equal to a nearest tenth with explicit range bounds (v2), with 0 <= k <= 100 (v2 environmental: -20..100 where the FIRST equation itself is negative); invalid objects score +0.0 ([C12] postconditions). Severity(): for every grid value ks of the same level's Score() (replace family over 0..100, v2 incl. -0.0) the result is the rating band of ks; a Severity() that consults another level's score does not reach the replaced call and fails the cut-point obligation. Printing: strconv.FormatFloat of each of the 101 grid doubles is the decimal with at most one digit (oracle table produced by the real function in this run)."},
 	}
 	P["C13"] = &PropPlan{ID: "C13", Title: "Not Defined neutrality; temporal never exceeds base",
-		Units: cat(v3("E", "RL", "RC", "CR", "IR", "AR", "MAV", "MAC", "MPR", "MUI", "MS", "MC", "MI", "MA"), v2("E", "RL", "RC", "TD", "CDP"), vecV3, vecV2, scoreUnitsV3, scoreUnitsV2, []Unit{
+		Units: cat(v3("E", "RL", "RC", "CR", "IR", "AR", "MAV", "MAC", "MPR", "MUI", "MS", "MC", "MI", "MA"), v2("E", "RL", "RC", "TD", "CDP"), vecV3, vecV2, qryV3, qryV2, scoreUnitsV3, scoreUnitsV2, []Unit{
 			{Lemma: "v3_env_neutral"}, {Lemma: "v3_eff_neutral"}, {Lemma: "v3_temporal_neutral"}, {Lemma: "v3_temporal_le_base"},
 		}),
 		Assumptions: []string{"A1", "A2", "A3", "A4", "A5", "A9", "A10"},
